@@ -21,7 +21,8 @@ RULE = (
     "= what merge_handles does (advance_handle(others, first)), rollback_handle(any state). Same parent "
     "+ same key/label derives the same state again. Preconditions the scheduler guarantees: advance "
     "only from states the model holds valid (or a not-yet-recorded root), merge only valid states and "
-    "never an ancestor into its descendant; ops that break them are skipped. Oracle: reference lineage "
+    "never an ancestor into its descendant, and never re-derive a merged state through one parent while "
+    "another recorded parent of it is invalid; ops that break them are skipped. Oracle: reference lineage "
     "model (state -> parents, status unrecorded/valid/invalid): rollback(h) invalidates every state "
     "derived from h (transitively, explicit user forks included), h keeps its status; advance makes "
     "child and parents valid; after every op bool(is_valid_handle(s)) == (model status is valid) for "
@@ -188,6 +189,13 @@ class BackendWorld:
     def pick(self, i):
         return i % len(self.ident)
 
+    def co_parent_invalid(self, child, listed):
+        """A state that already has another recorded parent (a merge) which is currently not valid:
+        deriving it again through one parent only leaves it with one established and one rolled-back
+        derivation. The lineage model has no verdict for that (see final report); skipped."""
+        m = self.model
+        return any(p not in listed and m.status[p] is not True for p in m.parents.get(child, ()))
+
     def parent_chain(self, s, keys):
         """Explicit user forks from state s: returns (chain ids [s, f1, .., parent], parent object)."""
         chain = [s]
@@ -220,6 +228,10 @@ class BackendWorld:
             else:
                 ch = hashlib.sha1(repr((self.ident[p], o[2])).encode()).hexdigest()
                 c, cobj = self.state(("call", p, o[2]), lambda: pobj.apply_call(ch))
+            if self.co_parent_invalid(c, [p]) or any(
+                    self.co_parent_invalid(b_, [a_]) for a_, b_ in zip(chain, chain[1:])):
+                self.labels.add("skipped:co-parent-invalid")
+                return
             if m.status[c] is False:
                 self.labels.add("rederive-invalidated")
                 self.nontrivial = True
@@ -239,6 +251,9 @@ class BackendWorld:
             final, others = sel[0], sel[1:]
             if any(final in m.ancestors(x) or final == x for x in others):
                 self.labels.add("skipped:merge-cycle")
+                return
+            if self.co_parent_invalid(final, others):
+                self.labels.add("skipped:co-parent-invalid")
                 return
             self.labels.add("merge")
             m.advance(others, final)
